@@ -5,6 +5,7 @@ the astropy registry; existence of the file after a refused write.
 Oracle: the table-set model (vlib/refs/yanny_model.py): names upper-cased, column order, dtype per column, rows,
 ints/strings equal, floats bit-identical in the declared width, header value == str(supplied).
 """
+import copy
 import os
 import numpy as np
 from vlib.harness import Check
@@ -18,6 +19,32 @@ _HDR_TYPES = {'npfloat': np.float64, 'npint32': np.int32, 'npint64': np.int64, '
 
 
 FORMAT_WORDS = M.FORMAT_WORDS
+
+# classes whose case is a *sequence* of documents handled one after another in one process (the case carries all of them, so a
+# replay re-executes the whole sequence)
+SEQUENCE_CLASSES = ('repeat_definitions', 'overwrite')
+# unsupported column types an astropy Table can hold
+REFUSED_IN_TABLE = ['u1', 'u2', 'u4', 'u8', 'i1', 'b1', 'f2', 'c8', 'c16']
+
+
+def _decl(c):
+    """What the definition of the table says about a column: its name, its type as declared, its array length."""
+    if c['kind'] == 'enum':
+        typ = ('enum', c['enum'].upper())
+    elif c['kind'] in ('S', 'U'):
+        typ = ('char', c['width'])
+    else:
+        typ = (c['kind'],)
+    return (c['name'], typ, c['alen'])
+
+
+def _signature(t):
+    """Two tables with equal signatures have character-identical definitions ('typedef struct' statements)."""
+    return (t['name'].upper(), tuple(_decl(c) for c in t['cols']))
+
+
+def _enum_width(doc, c):
+    return max(len(x) for x in doc['enums'][c['enum']])
 
 
 def _hdr_text(v, vt):
@@ -39,14 +66,23 @@ class C01(Check):
             'braces, edge blanks, number-/keyword-like text), numeric extremes (int min/max, +-0, denormals, max, NaN, '
             '+-inf, random bit patterns), zero-row tables, structure-name torture (substring names, names equal to a '
             'column elsewhere, 1-letter names, mixed case), header dictionaries, astropy Table entry points, big-endian '
-            'input, refusal of unsupported column types, and many files in one process reusing a few structure/column names with different declarations.  Each document is written with the real writer and read '
+            'input, refusal of unsupported column types, and many files in one process reusing a few structure/column names with different declarations; two classes whose case is a '
+            'sequence of 2-4 documents: repeat_definitions (character-identical table definitions, other enum label sets / rows / '
+            'pairs, all files read again at the end, or one path removed and reused) and overwrite (one path, Table entry points '
+            'with overwrite=True: same layout, same names re-declared scalar<->array / int->float / number<->string, another '
+            'table, a refused table in between; the replaced file may hold several tables, enums and pairs).  Each document is written with the real writer and read '
             'back twice (returned object and fresh read).  Non-trivial: >=1 row and >=1 string/extreme cell, or a '
             'zero-row/multi-table/Table-API/refusal case; distinct by hash of the table set.')
     ASSUMPTIONS = ['texts the format cannot express are excluded exactly as listed in the property (plus header values '
                    'with edge blanks, trailing backslash or the {{}} token, and header keys equal to a table name)',
                    'enum columns are compared as label text; unicode input columns must come back as byte strings at least as wide']
     REQUIRED_COUNTERS = ('record_layout_titled', 'record_layout_longlong', 'array_columns_longer_than_1000', 'writes_with_long_comment_lines', 'record_layout_view_permuted', 'record_layout_aligned', 'refusals_seen', 'zero_row_tables', 'float_cells_compared', 'string_cells_compared',
-                         'table_api_roundtrips', 'hdr_values_compared')
+                         'table_api_roundtrips', 'hdr_values_compared',
+                         # sequences of documents in one process (repeat_definitions, overwrite)
+                         'same_definition_text_labels_longer_than_before', 'same_definition_text_labels_shorter_than_before',
+                         'label_column_types_compared', 'sequence_files_read_again', 'paths_reused_after_removal',
+                         'overwrites_same_names_other_declaration', 'overwrites_scalar_array_flip', 'overwrites_same_layout',
+                         'overwrites_by_another_table', 'refusals_with_overwrite')
 
     def setup(self):
         import pydl.pydlutils.yanny as Y
@@ -73,10 +109,13 @@ class C01(Check):
         k = 1 if q else 120
         return {'mixed': 500 * k, 'string_torture': 500 * k, 'numeric_extremes': 300 * k, 'zero_rows': 150 * k,
                 'structname_torture': 300 * k, 'headers': 200 * k, 'table_api': 200 * k, 'byteorder': 100 * k,
-                'refusal': 100 * k, 'common_names': 250 * k, 'format_tokens': 300 * k}
+                'refusal': 100 * k, 'common_names': 250 * k, 'format_tokens': 300 * k,
+                'repeat_definitions': 200 * k, 'overwrite': 200 * k}
 
     # ------------------------------------------------------------------ gen
     def gen(self, cls, rng, i):
+        if cls in SEQUENCE_CLASSES:
+            return self._gen_sequence(cls, rng)
         if cls == 'refusal':
             bad = rng.choice(REFUSED)
             cols = M.gen_cols(rng, rng.randint(0, 3), allow_strings=True)
@@ -178,6 +217,21 @@ class C01(Check):
                     if num:
                         num[0]['name'] = en
                         break
+        self._rename_strings_named_like_enum_columns(tables, enum_names)
+        hdr = self._gen_hdr(rng, names, rng.randint(1, 6) if cls == 'headers' else rng.choice([0, 0, 1, 2]))
+        return {'kind': cls, 'tables': tables, 'enums': enums, 'hdr': hdr,
+                'byteorder': '>' if cls == 'byteorder' else '=',
+                'api': 'table' if cls == 'table_api' else 'ndarray',
+                'single_not_list': ntab == 1 and rng.random() < 0.5,
+                'default_names': cls == 'mixed' and rng.random() < 0.15,
+                # memory layout of the record arrays handed to the writer (field order is the document's in every layout)
+                'field_layout': rng.choice(['packed', 'packed', 'packed', 'view_permuted', 'aligned', 'titled', 'longlong']),
+                # the free-text comments= argument of the writer: absent, one line of text, a list of lines (some long,
+                # some containing words that mean something to the format); they must never become content
+                'comments': self._comments(rng, names)}
+
+    @staticmethod
+    def _rename_strings_named_like_enum_columns(tables, enum_names):
         for t in tables:
             taken = {c['name'].lower() for c in t['cols']}
             for c in t['cols']:
@@ -187,8 +241,10 @@ class C01(Check):
                         k += 1
                     c['name'] = '%s_n%d' % (c['name'], k)
                     taken.add(c['name'].lower())
+
+    @staticmethod
+    def _gen_hdr(rng, names, nh):
         hdr = []
-        nh = rng.randint(1, 6) if cls == 'headers' else rng.choice([0, 0, 1, 2])
         keys = set()
         for _ in range(nh):
             k = M.pair_key(rng, 1, 8)
@@ -230,16 +286,189 @@ class C01(Check):
                     # text that reads like a number in another spelling: it stays that text
                     v = rng.choice(['007', '+5', '1e5', '1.0', '1.', '.5', '0x1F', '1_000', '-0', '1d3', 'nan', 'inf', 'True', 'None'])
             hdr.append([k, v, vt])
-        return {'kind': cls, 'tables': tables, 'enums': enums, 'hdr': hdr,
-                'byteorder': '>' if cls == 'byteorder' else '=',
-                'api': 'table' if cls == 'table_api' else 'ndarray',
-                'single_not_list': ntab == 1 and rng.random() < 0.5,
-                'default_names': cls == 'mixed' and rng.random() < 0.15,
-                # memory layout of the record arrays handed to the writer (field order is the document's in every layout)
-                'field_layout': rng.choice(['packed', 'packed', 'packed', 'view_permuted', 'aligned', 'titled', 'longlong']),
-                # the free-text comments= argument of the writer: absent, one line of text, a list of lines (some long,
-                # some containing words that mean something to the format); they must never become content
-                'comments': self._comments(rng, names)}
+        return hdr
+
+    # ---------------------------------------------------------------- sequences of documents
+    @staticmethod
+    def _labels(rng, maxlen, avoid):
+        """A set of 1-4 enum labels, the longest of them exactly maxlen characters long."""
+        labs = []
+        n = rng.randint(1, 4)
+        tries = 0
+        while len(labs) < n and tries < 40:
+            tries += 1
+            ln = maxlen if not labs else rng.randint(1, maxlen)
+            if ln > 1 and rng.random() < 0.5:
+                lab = ''.join(rng.choice('ABCDEFGHKLMNPRSTUVWXY') for _ in range(ln - 1)) + rng.choice('0123456789_')
+            else:
+                lab = ''.join(rng.choice('ABCDEFGHKLMNPRSTUVWXY') for _ in range(ln))
+            if lab not in labs and lab.lower() not in M.KEYWORDS and lab.upper() not in avoid:
+                labs.append(lab)
+        if not labs:
+            labs = ['Q' * maxlen]
+        rng.shuffle(labs)
+        return labs
+
+    def _seq_fill(self, rng, doc):
+        """(new) rows and header pairs for the layout of doc"""
+        for t in doc['tables']:
+            nrows = rng.choice([0, 1, 1, 2, 3, 5])
+            extreme, torture = rng.random() < 0.3, rng.random() < 0.3
+            t['rows'] = [[M.gen_cell(rng, c, doc['enums'], extreme, torture) for c in t['cols']] for _ in range(nrows)]
+            M.fix_last_column(t)
+        doc['hdr'] = self._gen_hdr(rng, [t['name'] for t in doc['tables']], rng.choice([0, 1, 2, 3]))
+
+    def _seq_tidy(self, doc):
+        for t in doc['tables']:
+            for c in t['cols']:
+                if c['kind'] == 'enum':
+                    c['width'] = _enum_width(doc, c)
+        enum_names = {c['name'] for t in doc['tables'] for c in t['cols'] if c['kind'] == 'enum'}
+        self._rename_strings_named_like_enum_columns(doc['tables'], enum_names)
+        used = {c['enum'] for t in doc['tables'] for c in t['cols'] if c['kind'] == 'enum'}
+        doc['enums'] = {k: v for k, v in doc['enums'].items() if k in used}
+
+    @staticmethod
+    def _retype(rng, c):
+        """The same column name with another declaration: scalar <-> 1-D array, another numeric type, number <-> string,
+        another string width; a label column becomes an ordinary one."""
+        old = _decl(c)
+        if c['kind'] == 'enum':
+            c.pop('enum')
+            c['kind'] = rng.choice(['S', 'i4'])
+            c['width'] = c['width'] if c['kind'] == 'S' else 0
+        for _ in range(20):
+            m = rng.choice(['flip', 'flip', 'kind', 'kind', 'width', 'alen'])
+            if m == 'flip':
+                c['alen'] = 0 if c['alen'] else rng.randint(1, 4)
+            elif m == 'kind':
+                k = rng.choice(M.NUMKINDS + ['S'])
+                c['kind'], c['width'] = k, (rng.randint(1, 12) if k == 'S' else 0)
+            elif m == 'width' and c['kind'] == 'S':
+                c['width'] = rng.randint(1, 12)
+            elif m == 'alen' and c['alen']:
+                c['alen'] = rng.randint(1, 5)
+            if _decl(c) != old:
+                break
+
+    def _gen_sequence(self, cls, rng):
+        """repeat_definitions: 2-4 documents written by the record-array entry point one after another, the later ones with
+        the *same* table names, column names and declared types as the first (character-identical definitions) while what the
+        definitions do not say differs: the label sets of the enumerated types (longer or shorter labels), row counts, cells,
+        header pairs; sometimes a column is re-declared under the same name, a table renamed or re-cased.  Every document goes to
+        its own file (all of them stay, and are read again at the end, latest first), or all to one path that is removed in between.
+        overwrite: 2-4 documents written to ONE path, the later ones through the Table entry points with overwrite=True - the
+        same layout with other data (the usual update), the same table and column names with another declaration (scalar <->
+        array, int -> float, number <-> string), another table altogether; the file that is replaced may have come from the
+        record-array entry point (several tables, enums, pairs); in between, tables that must be refused."""
+        over = cls == 'overwrite'
+        ndocs = rng.choice([2, 2, 3, 3, 4])
+        first_ndarray = (not over) or rng.random() < 0.3
+        ntab = rng.choice([1, 1, 2, 3]) if first_ndarray else 1
+        default_names = first_ndarray and rng.random() < 0.3
+        if default_names:
+            names = ['MYSTRUCT%d' % k for k in range(ntab)]
+        else:
+            pool = ['OBJ', 'Tab', 'status', 'PLUGMAPOBJ', M.ident(rng, 2, 8), M.ident(rng, 1, 3, suffix=False).upper()]
+            rng.shuffle(pool)
+            names = []
+            for nm in pool:
+                if nm.upper() not in [x.upper() for x in names]:
+                    names.append(nm)
+            names = names[:ntab]
+        enums = {}
+        if first_ndarray and (not over or rng.random() < 0.5):
+            for _ in range(rng.randint(1, 2)):
+                en = M.ident(rng, 3, 6, suffix=False).upper() + '_T'
+                enums[en] = self._labels(rng, rng.randint(1, 9), [n.upper() for n in names])
+        tables = []
+        enum_cols_used = set()
+        cpool = ['a', 'b', 'mag', 'flag', 'name', 'x', 'id']
+        for nm in names:
+            cols = M.gen_cols(rng, rng.randint(1, 6), enums=enums if enums else None)
+            if rng.random() < 0.5:
+                # everyday column names, shared between the tables of the sequence
+                rng.shuffle(cpool)
+                for ci, c in enumerate(cols[:len(cpool)]):
+                    if c['kind'] != 'enum':
+                        c['name'] = cpool[ci]
+            for c in cols:
+                if c['kind'] == 'enum':
+                    if c['name'] in enum_cols_used:
+                        c['kind'], c['width'] = 'i4', 0
+                        c.pop('enum')
+                    else:
+                        enum_cols_used.add(c['name'])
+            tables.append({'name': nm, 'cols': cols, 'rows': []})
+        if enums and not enum_cols_used:
+            c = tables[0]['cols'][rng.randrange(len(tables[0]['cols']))]
+            tn = rng.choice(sorted(enums))
+            c.update(kind='enum', enum=tn, alen=0, width=0)
+        # a column name is unique within its table whatever the case of its letters
+        for t in tables:
+            seen = set()
+            for c in t['cols']:
+                while c['name'].lower() in seen:
+                    c['name'] += 'q'
+                seen.add(c['name'].lower())
+        doc = {'tables': tables, 'enums': enums, 'hdr': [], 'byteorder': '=',
+               'api': 'ndarray' if first_ndarray else rng.choice(['table', 'table_func']),
+               'overwrite': (not first_ndarray) and rng.random() < 0.5,      # overwrite=True where there is nothing to replace
+               'single_not_list': ntab == 1 and rng.random() < 0.5, 'default_names': default_names,
+               'field_layout': rng.choice(['packed', 'packed', 'packed', 'view_permuted', 'aligned']),
+               'comments': rng.choice([None, None, 'typedef struct { int x; } %s;' % names[0].upper()]), 'changes': []}
+        self._seq_tidy(doc)
+        self._seq_fill(rng, doc)
+        docs = [doc]
+        while len(docs) < ndocs:
+            new = copy.deepcopy(docs[-1])
+            new['changes'] = []
+            if over:
+                # the Table entry points write one table, without enums
+                new['tables'] = [new['tables'][rng.randrange(len(new['tables']))]]
+                for c in new['tables'][0]['cols']:
+                    if c['kind'] == 'enum':
+                        c.pop('enum')
+                        c['kind'] = 'S'
+                        new['changes'].append('labels_to_strings')
+                new['enums'] = {}
+                new.update(api=rng.choice(['table', 'table_func']), overwrite=True, default_names=False, single_not_list=True,
+                           field_layout='packed', comments=None)
+            if new['enums'] and rng.random() < 0.7:
+                for en in sorted(new['enums']):
+                    old = max(len(x) for x in new['enums'][en])
+                    new['enums'][en] = self._labels(rng, rng.choice([w for w in range(1, 11) if w != old]),
+                                                    [t['name'].upper() for t in new['tables']])
+                new['changes'].append('relabel')
+            if rng.random() < (0.6 if over else 0.25):
+                t = new['tables'][rng.randrange(len(new['tables']))]
+                for c in rng.sample(t['cols'], rng.randint(1, min(2, len(t['cols'])))):
+                    self._retype(rng, c)
+                new['changes'].append('retype')
+            r = rng.random()
+            if r < 0.12 and not new['default_names']:
+                t = new['tables'][rng.randrange(len(new['tables']))]
+                nm = M.ident(rng, 2, 8)
+                if nm.upper() not in [x['name'].upper() for x in new['tables']]:
+                    t['name'] = nm
+                    new['changes'].append('rename')
+            elif r < 0.3 and not new['default_names']:
+                # the same name in other letters case: the same table name in the file
+                t = new['tables'][rng.randrange(len(new['tables']))]
+                t['name'] = rng.choice([t['name'].upper(), t['name'].lower(), t['name'].swapcase()])
+                new['changes'].append('recase')
+            if over and rng.random() < 0.15:
+                # a table that cannot be written, handed to the writer with overwrite=True
+                new['refused'] = {'bad': rng.choice(REFUSED_IN_TABLE), 'as_array': rng.random() < 0.3,
+                                  'pos': rng.randint(0, len(new['tables'][0]['cols']))}
+            else:
+                new.pop('refused', None)
+            self._seq_tidy(new)
+            self._seq_fill(rng, new)
+            docs.append(new)
+        if over and all(d.get('refused') for d in docs[1:]):
+            docs[-1].pop('refused')
+        return {'kind': cls, 'docs': docs, 'same_path': over or rng.random() < 0.3}
 
     @staticmethod
     def _comments(rng, names):
@@ -282,7 +511,9 @@ class C01(Check):
         self._n += 1
         fn = os.path.join(self.workdir, 'c01_%d.par' % self._n)
         try:
-            if case['kind'] == 'refusal':
+            if case['kind'] in SEQUENCE_CLASSES:
+                self.run_sequence(case, out, fn)
+            elif case['kind'] == 'refusal':
                 self.run_refusal(case, out, fn)
             elif case['api'] == 'table':
                 self.run_table_api(case, out, fn)
@@ -349,7 +580,8 @@ class C01(Check):
                 return True
         return False
 
-    def run_ndarray(self, case, out, fn):
+    def _write_ndarray(self, case, out, fn):
+        """hand the document to the record-array entry point as the case says; returns the writer's object"""
         arrays = [M.build_array(t, case['byteorder']) for t in case['tables']]
         out.count('array_columns_longer_than_1000', sum(1 for t in case['tables'] for c in t['cols'] if c['alen'] > 1000))
         fl = case.get('field_layout', 'packed')
@@ -379,7 +611,10 @@ class C01(Check):
             kw['comments'] = case['comments']
             out.count('writes_with_comments')
             out.count('writes_with_long_comment_lines', isinstance(case['comments'], list) and any(len(c) > 100 for c in case['comments']))
-        par = self.Y.write_ndarray_to_yanny(fn, data, structnames=names_arg, enums=M.writer_enums(case), hdr=hdr, **kw)
+        return self.Y.write_ndarray_to_yanny(fn, data, structnames=names_arg, enums=M.writer_enums(case), hdr=hdr, **kw)
+
+    def run_ndarray(self, case, out, fn):
+        par = self._write_ndarray(case, out, fn)
         out.expect(os.path.exists(fn), 'written', 'no file was written')
         self._compare_all(case, out, par, 'returned-object')
         fresh = self.Y.yanny(fn)
@@ -425,10 +660,170 @@ class C01(Check):
                     os.remove(f)
         out.nontrivial = True
 
+    # ---------------------------------------------------------------- sequences of documents
+    def _table_of(self, doc, extra=None):
+        t = doc['tables'][0]
+        a = M.build_array(t)
+        if extra is not None:
+            dt = [(n,) + ((a.dtype[n].subdtype[0], a.dtype[n].subdtype[1]) if a.dtype[n].subdtype else (a.dtype[n],))
+                  for n in a.dtype.names]
+            bad = ('bad_col', extra['bad'], (2,)) if extra['as_array'] else ('bad_col', extra['bad'])
+            dt.insert(min(extra['pos'], len(dt)), bad)
+            b = np.zeros(len(a), dtype=dt)
+            for n in a.dtype.names:
+                b[n] = a[n]
+            a = b
+        meta = {key: _hdr_obj(v, vt) for key, v, vt in doc['hdr']}
+        return self.Table(a, meta=meta) if meta else self.Table(a)
+
+    def _table_write(self, doc, tab, f):
+        kw = {'overwrite': True} if doc.get('overwrite') else {}
+        if doc['api'] == 'table':
+            tab.write(f, format='yanny', tablename=doc['tables'][0]['name'], **kw)
+        else:
+            self.Y.write_table_yanny(tab, f, tablename=doc['tables'][0]['name'], **kw)
+
+    def _enum_widths(self, doc, out, obj, where):
+        """A label column is handed over as S<n>, n the length of the longest label of THIS document's enum, and that is the
+        column type that has to come back (whatever enums the documents handled earlier declared under the same names)."""
+        for t in doc['tables']:
+            if t['name'].upper() not in obj:
+                continue
+            dt = obj[t['name'].upper()].dtype
+            for c in t['cols']:
+                if c['kind'] == 'enum' and dt.names and c['name'] in dt.names:
+                    out.expect(dt[c['name']].kind == 'S' and dt[c['name']].itemsize == c['width'], 'readback',
+                               '%s:%s.%s: label column of type %s, handed over as S%d (longest label of %s: %d characters)'
+                               % (where, t['name'].upper(), c['name'], dt[c['name']], c['width'], c['enum'], c['width']))
+                    out.count('label_column_types_compared')
+
+    def _sequence_counters(self, case, out):
+        docs = case['docs']
+        for k, doc in enumerate(docs):
+            if doc.get('refused'):
+                continue
+            for t in doc['tables']:
+                sig = _signature(t)
+                ecols = [c for c in t['cols'] if c['kind'] == 'enum']
+                for j in range(k):
+                    if docs[j].get('refused'):
+                        continue
+                    for u in docs[j]['tables']:
+                        if _signature(u) != sig:
+                            continue
+                        out.count('tables_with_a_definition_text_seen_before')
+                        for c in ecols:
+                            w0 = _enum_width(docs[j], c)
+                            if c['width'] > w0:
+                                out.count('same_definition_text_labels_longer_than_before')
+                            elif c['width'] < w0:
+                                out.count('same_definition_text_labels_shorter_than_before')
+
+    def run_sequence(self, case, out, fn):
+        Table = self.Table
+        docs = case['docs']
+        over = case['kind'] == 'overwrite'
+        same_path = case['same_path']
+        self._sequence_counters(case, out)
+        files, live = [], []
+        on_disk = None               # the document the single path holds (overwrite)
+        try:
+            for k, doc in enumerate(docs):
+                f = fn if same_path else fn + '.%d.par' % k
+                if f not in files:
+                    files.append(f)
+                tag = 'document %d of %d' % (k + 1, len(docs))
+                if doc.get('refused'):
+                    tab = self._table_of(doc, extra=doc['refused'])
+                    try:
+                        self._table_write(doc, tab, f)
+                    except Exception as e:
+                        out.checks += 1
+                        out.count('refusals_seen')
+                        out.count('refusals_with_overwrite')
+                        out.info['refusal'] = type(e).__name__
+                    else:
+                        out.fail('refusal', '%s: column of unsupported type %s was written (overwrite=True) instead of refused'
+                                 % (tag, doc['refused']['bad']), file_head=open(f).read()[:500] if os.path.exists(f) else None)
+                        on_disk = None
+                        continue
+                    # never written wrongly: afterwards there is no file, or the complete earlier document
+                    if os.path.exists(f):
+                        if not out.expect(on_disk is not None, 'refusal', '%s: refused, but a file was left behind where there '
+                                          'was none' % tag):
+                            continue
+                        self._compare_all(on_disk, out, self.Y.yanny(f), '%s refused, file kept' % tag)
+                        out.count('refusals_that_kept_the_earlier_file')
+                    else:
+                        on_disk = None
+                    continue
+                if over and on_disk is not None and doc.get('overwrite'):
+                    out.count('overwrites_of_an_existing_file')
+                    same = [u for u in on_disk['tables'] if u['name'].upper() == doc['tables'][0]['name'].upper()]
+                    if same:
+                        oldd = {c['name']: _decl(c) for c in same[0]['cols']}
+                        ch = [c for c in doc['tables'][0]['cols'] if c['name'] in oldd and oldd[c['name']] != _decl(c)]
+                        out.count('overwrites_same_names_other_declaration', bool(ch))
+                        out.count('overwrites_scalar_array_flip', any(bool(c['alen']) != bool(oldd[c['name']][2]) for c in ch))
+                        out.count('overwrites_same_layout', _signature(same[0]) == _signature(doc['tables'][0]))
+                    else:
+                        out.count('overwrites_by_another_table')
+                if doc['api'] == 'ndarray':
+                    if same_path and os.path.exists(f):
+                        os.remove(f)
+                        out.count('paths_reused_after_removal')
+                    par = self._write_ndarray(doc, out, f)
+                    out.expect(os.path.exists(f), 'written', '%s: no file was written' % tag)
+                    self._compare_all(doc, out, par, '%s returned-object' % tag)
+                    self._enum_widths(doc, out, par, '%s returned-object' % tag)
+                    live.append((tag, doc, par))
+                else:
+                    t = doc['tables'][0]
+                    self._table_write(doc, self._table_of(doc), f)
+                    out.expect(os.path.exists(f), 'written', '%s: no file was written' % tag)
+                    back = Table.read(f, format='yanny', tablename=t['name'])
+                    M.compare_table(out, np.asarray(back.as_array()), t, '%s Table.read:%s' % (tag, t['name']), clause='table-api')
+                    keys = [h[0] for h in doc['hdr']]
+                    out.expect(list(back.meta.keys()) == keys, 'table-api', '%s: meta keys %r != %r'
+                               % (tag, list(back.meta.keys()), keys))
+                    for key, v, vt in doc['hdr']:
+                        exp = _hdr_text(v, vt)
+                        out.expect(back.meta.get(key) in exp, 'table-api', '%s: meta %s = %r expected %r'
+                                   % (tag, key, back.meta.get(key), exp))
+                        out.count('hdr_values_compared')
+                    out.count('table_api_roundtrips')
+                on_disk = doc
+                fresh = self.Y.yanny(f)
+                self._compare_all(doc, out, fresh, '%s fresh-read' % tag)
+                self._enum_widths(doc, out, fresh, '%s fresh-read' % tag)
+                out.count('documents')
+                out.count('documents_in_sequences')
+                for t in doc['tables']:
+                    if not t['rows']:
+                        out.count('zero_row_tables')
+            # the files that are still there, read once more, the latest first
+            if not same_path:
+                for k in reversed(range(len(docs))):
+                    again = self.Y.yanny(files[k])
+                    self._compare_all(docs[k], out, again, 'document %d of %d read again at the end' % (k + 1, len(docs)))
+                    self._enum_widths(docs[k], out, again, 'document %d of %d read again at the end' % (k + 1, len(docs)))
+                    out.count('sequence_files_read_again')
+            # the objects the writer returned are all still alive: what was handled later must not have changed them
+            for tag, doc, par in live[:-1]:
+                self._compare_all(doc, out, par, '%s returned-object, looked at again at the end' % tag)
+            out.count('sequences')
+        finally:
+            for f in files:
+                if os.path.exists(f):
+                    os.remove(f)
+        out.nontrivial = True
+
     def summarise(self, case):
         c = dict(case)
         if 'tables' in c:
             c['tables'] = [dict(t, rows=t['rows'][:2]) for t in c['tables'][:2]]
+        if 'docs' in c:
+            c['docs'] = [dict(d, tables=[dict(t, rows=t['rows'][:2]) for t in d['tables'][:2]]) for d in c['docs']]
         return c
 
 
